@@ -17,9 +17,13 @@ RULE = (
     "(relocatable ELF linked by gcc with a generated C driver that calls each function through the System V ABI with "
     "boundary-biased arguments incl. more arguments than registers, prints the result, the bytes of every global and of "
     "the caller buffers and logs external calls), riscv / riscv:rvc in the RV32IMC emulator vf/rv32.py when available. "
-    "Oracle: the reference interpreter vf/irsem.py on the same module (address dependent parts masked; executions "
-    "undefined in IR terms discarded). non-trivial = function has >= 8 instructions and its execution was defined; "
-    "distinct = (module, level, target, call)"
+    "Modules use the generator's loop-phi-live-after-the-loop shapes (phi_liveout). A fixed corpus (replays/C05/corpus_*: "
+    "every binary operator, comparison and widening/narrowing cast per integer type with all operands kept live, and calls "
+    "with 9 mixed-type arguments, per target) is replayed before the search. "
+    "Oracle: the reference interpreter vf/irsem.py on the same module, run under three memory layouts (address dependent "
+    "and never initialised parts masked; executions undefined in IR terms discarded). Shapes that reach an open finding "
+    "are excluded per target (evidence key excluded_shapes). "
+    "non-trivial = function has >= 8 instructions and its execution was defined; distinct = (module, level, target, call)"
 )
 ASSUMPTIONS = [
     "IR semantics of DESIGN.md 3.1; external routines are pure functions of (name, arguments, call index)",
@@ -192,6 +196,20 @@ class _ThirdLayout(irsem.Machine):
         self.s_next, self.s_gap = hi + 0x7B4D_2E00, 96
         self.f_next, self.b_next, self.l_next = hi + 0x19E7_8300, hi + 0xC6A1_D500, hi + 0xE25F_4B00
         super()._layout_globals()
+
+    def observe(self, ret):
+        """irsem's memcpy carries the 'never initialised' flag of the source bytes into globals and caller buffers, but
+        its observation prints such bytes as 00; the machine has whatever the stack held.  Here they are masked (found on
+        x86_64: 'memcpy(g0, <uninitialised alloca>, 2)' gave 7f.. natively)."""
+        obs = super().observe(ret)
+
+        def mask(h, obj):
+            return "".join(h[2 * i : 2 * i + 2] if obj.init[i] else "??" for i in range(obj.size))
+
+        for name, obj in self.globals.items():
+            obs["globals"][name] = mask(obs["globals"][name], obj)
+        obs["buffers"] = [mask(h, o) for h, o in zip(obs["buffers"], self.buffers)]
+        return obs
 
 
 def observe3(m, fname, args, ptr_bits, fuel, buffers):
@@ -397,6 +415,27 @@ def _kf3_model(desc):
     return d
 
 
+def _kf4_shape(desc):
+    """a 4 byte access directly at an alloca that may sit at a frame offset that is not a multiple of 4"""
+    for f in desc["functions"]:
+        loose = {i[1] for b in f["blocks"] for i in b["ins"] if i[0] == "alloc" and i[2] >= 4 and i[3] < 4}
+        ptrs = {i[1] for b in f["blocks"] for i in b["ins"] if i[0] == "addr" and i[2] in loose}
+        for b in f["blocks"]:
+            for i in b["ins"]:
+                if (i[0] == "load" and i[2] in ("i32", "u32", "ptr") and i[3] in ptrs) or (i[0] == "store" and i[2] in ptrs):
+                    return True
+    return False
+
+
+def _kf4_rewrite(desc):
+    for f in desc["functions"]:
+        for b in f["blocks"]:
+            for i in b["ins"]:
+                if i[0] == "alloc" and i[2] >= 4 and i[3] < 4:
+                    i[3] = 4
+    return desc
+
+
 FINDINGS = {
     # riscv: SHRU8/SHRU16/DIVU16/REMU16 work on the whole register although the upper bits of a narrow value are undefined
     "C05-KF1": {"targets": RV, "shape": _kf1_shape, "rewrite": lambda ins: _rw_widen(ins, ins[2]),
@@ -407,6 +446,9 @@ FINDINGS = {
     # optimiser (every target, -O1 and higher): CSE merges the constants 0.0 and -0.0 of a block
     "C05-KF3": {"targets": ("x86_64",), "module_shape": lambda d: any(_kf3_shape_block(b) for f in d["functions"] for b in f["blocks"]),
                 "model": _kf3_model, "forbid": [], "profile_kw": {"mixed_zero_signs": False}},
+    # riscv:rvc: lw/sw at a frame offset that is not a multiple of 4 becomes c.lw/c.sw/c.lwsp/c.swsp, which encode offset/4
+    "C05-KF4": {"targets": ("riscv:rvc",), "module_shape": _kf4_shape, "module_rewrite": _kf4_rewrite, "forbid": [],
+                "profile_kw": {"word_aligned_allocas": True}},
 }
 
 
@@ -437,12 +479,15 @@ def rewritten(desc, kids):
             out = []
             for ins in b["ins"]:
                 for k in kids:
-                    if FINDINGS[k]["shape"](ins):
+                    if "shape" in FINDINGS[k] and FINDINGS[k]["shape"](ins):
                         out.extend(FINDINGS[k]["rewrite"](ins))
                         break
                 else:
                     out.append(ins)
             b["ins"] = out
+    for k in kids:
+        if "module_rewrite" in FINDINGS[k]:
+            d = FINDINGS[k]["module_rewrite"](d)
     return d
 
 
@@ -467,7 +512,7 @@ def classify(case, msg):
             pass
         finally:
             cleanup()
-    cands = [k for k in cands if "rewrite" in FINDINGS[k]]
+    cands = [k for k in cands if "rewrite" in FINDINGS[k] or "module_rewrite" in FINDINGS[k]]
     for kids in [[k] for k in cands] + ([cands] if len(cands) > 1 else []):
         c2 = dict(case, module=rewritten(case["module"], kids), levels=levels)
         try:
